@@ -1,10 +1,11 @@
 --------------------------- MODULE Lemma_RepLeaf ---------------------------
 (***************************************************************************)
-(* RegexSem evaluates a counted repetition of a single leaf in closed form *)
-(* (RepLeaf) so that a{66000} is tractable for TLC (C17).  This module has *)
-(* TLC evaluate that the closed form IS the iteration, for every word up   *)
-(* to length 5 over three atoms, four leaves, every start position and all *)
-(* bounds 0 <= min <= max <= 4 and max unbounded.                          *)
+(* RegexSem counts a repetition of a single leaf in chunks (RepLeafC)      *)
+(* instead of match by match, so that a{66000} is tractable for TLC (C17). *)
+(* This module has TLC evaluate that the chunked count IS the iteration,   *)
+(* for every word up to length 5 over three atoms, four leaves, every      *)
+(* start position, all bounds 0 <= min <= max <= 4 and max unbounded, and  *)
+(* chunk sizes 1..3 (so that chunk boundaries fall inside the words).      *)
 (***************************************************************************)
 EXTENDS RegexSem
 VARIABLE dummy
